@@ -1,9 +1,495 @@
 package plan
 
-func (g *gen) iofaults(p *Plan)  { panic("todo") }
-func (g *gen) cuts(p *Plan)      { panic("todo") }
-func (g *gen) corrupt(p *Plan)   { panic("todo") }
-func (g *gen) hostile(p *Plan)   { panic("todo") }
-func (g *gen) dependent(p *Plan) { panic("todo") }
-func (g *gen) lifecycle(p *Plan) { panic("todo") }
-func (g *gen) creader(p *Plan)   { panic("todo") }
+import "fmt"
+
+// storedFrame draws a valid stored frame description (library Writer or
+// reference encoder) over a fresh input, returning it with its block size in
+// bytes, the content length and the number of blocks.
+func (g *gen) storedFrame(p *Plan, maxBlocks int, small bool) (Stored, int, int, int) {
+	if g.r.Chance(1, 2) {
+		o := g.wopts(1)
+		o.HYield = 0
+		if o.BS > 5 || small {
+			o.BS = 4
+		}
+		if o.Level > 3 {
+			o.Level = g.r.Range(0, 3)
+		}
+		bs := bsBytes(o.BS)
+		n := g.length(bs, maxBlocks)
+		if small {
+			n = g.r.PickInt(0, 1, 5, 17, 100, 600, 1500, g.r.Range(0, 1800))
+		}
+		if o.BS == 5 && n > 2*bs {
+			n = g.r.Range(0, 2*bs)
+		}
+		in := len(p.Inputs)
+		inp := g.input(n)
+		if small && g.r.Chance(1, 2) {
+			inp.Class = "random" // keeps tiny frames from collapsing to a handful of bytes
+		}
+		p.Inputs = append(p.Inputs, inp)
+		chunk := 0
+		if g.r.Chance(1, 3) && n > 0 {
+			chunk = g.r.Range(1, n) // several Write calls; block boundaries do not move
+		}
+		return Stored{Base: "lz4w", Opts: &o, In: in, Chunk: chunk}, bs, n, n/bs + 1
+	}
+	e := &EncPlan{BS: g.blockIdx(), BSum: g.r.Chance(1, 2), CSum: g.r.Chance(2, 3), HasSize: g.r.Chance(1, 3)}
+	if e.BS > 5 || small {
+		e.BS = 4
+	}
+	bs := bsBytes(e.BS)
+	n := g.length(bs, maxBlocks)
+	if small {
+		n = g.r.PickInt(0, 1, 5, 17, 100, 600, 1500, g.r.Range(0, 1800))
+	}
+	e.Blocks = g.encBlocks(n, bs)
+	in := len(p.Inputs)
+	p.Inputs = append(p.Inputs, g.input(n))
+	return Stored{Base: "refenc", Enc: e, In: in}, bs, n, maxInt(len(e.Blocks), 1)
+}
+
+// encBlocks cuts n bytes into reference-encoder blocks of varied sizes.
+func (g *gen) encBlocks(n, bs int) []EncBlockPlan {
+	var out []EncBlockPlan
+	style := g.r.Pick(40, 30, 30)
+	for rem := n; rem > 0; {
+		var l int
+		switch style {
+		case 0:
+			l = bs
+		case 1:
+			l = g.r.PickInt(bs, bs, g.r.Range(1, bs), g.r.Range(1, 64), 13, 12, 5, 1)
+		default:
+			l = g.r.Range(1, bs)
+		}
+		if l > rem {
+			l = rem
+		}
+		if len(out) > 60 {
+			l = minInt(rem, bs)
+		}
+		b := EncBlockPlan{Len: l}
+		switch g.r.Pick(70, 15, 10, 5) {
+		case 1:
+			b.Raw = true
+		case 2:
+			b.NoMatches = true
+		case 3:
+			b.MinMatch = g.r.PickInt(5, 8, 20)
+		}
+		out = append(out, b)
+		rem -= l
+	}
+	return out
+}
+
+// ---------------------------------------------------------------------------
+// C15: I/O faults (enumerated call index) and fragmentation invariance.
+
+func (g *gen) iofaults(p *Plan) {
+	switch g.r.Pick(40, 30, 10, 20) {
+	case 0: // producer side: every sink call fails in turn
+		p.Kind = "wfault"
+		conc := g.conc(true)
+		o := g.wopts(conc)
+		if o.BS > 5 {
+			o.BS = 4
+		}
+		if o.Level > 3 {
+			o.Level = 0
+		}
+		if g.r.Chance(1, 30) {
+			o.Legacy = true
+			o.BSum = false
+		}
+		bs := bsBytes(o.BS)
+		n := g.length(bs, 5)
+		if o.BS == 5 && n > 2*bs {
+			n = g.r.Range(0, 2*bs)
+		}
+		if o.Legacy {
+			n = g.r.Range(0, 200000)
+		}
+		p.Inputs = []Input{g.input(n)}
+		w := WScript{Opts: o, In: 0, Sinks: []SinkPlan{{Yields: g.r.Pick(70, 20, 10)}}}
+		if g.r.Chance(1, 4) {
+			w.Ops = []WOp{{Op: "readfrom", N: n, Frag: ptrFrag(g.fragFor(n))}}
+		} else {
+			w.Ops = g.writeOps(n, bs, 6)
+		}
+		if g.r.Chance(1, 3) {
+			w.Ops = append(w.Ops, WOp{Op: "flush"})
+		}
+		w.Ops = append(w.Ops, WOp{Op: "close"})
+		p.Writers = []WScript{w}
+		p.Phases = [][]string{{"W0"}}
+		p.Procs = g.procsFor(conc)
+		p.Twin = true
+		p.Enum = &Enum{Kind: "sinkfail", Target: "W0", Full: 64, Seed: g.r.Uint64()}
+	case 1, 2: // consumer side
+		p.Kind = "rfault"
+		st, bs, n, _ := g.storedFrame(p, 5, false)
+		conc := g.r.PickInt(1, 1, 2, 4)
+		src := Source{Stored: st, Frag: g.fragFor(n), EOFWithData: g.r.Chance(1, 4), Yields: g.r.Pick(70, 20, 10)}
+		if src.Frag.Policy == "one" {
+			src.Frag.Policy = "small"
+		}
+		r := RScript{Conc: conc, HYield: g.r.Pick(80, 15, 5), Srcs: []Source{src}}
+		r.Ops = g.readOps(bs, n)
+		p.Readers = []RScript{r}
+		p.Phases = [][]string{{"R0"}}
+		if r.Ops[0].Op == "writeto" && g.r.Chance(1, 2) {
+			p.Enum = &Enum{Kind: "wtsinkfail", Target: "R0", Full: 64, Seed: g.r.Uint64()}
+		} else {
+			p.Enum = &Enum{Kind: "srcfail", Target: "R0", Full: 64, Seed: g.r.Uint64()}
+		}
+	default: // the same stored bytes under every fragmentation policy
+		p.Kind = "fraginv"
+		st, bs, n, nb := g.storedFrame(p, 4, false)
+		switch g.r.Pick(50, 25, 25) {
+		case 1:
+			st.Mut = []Mutation{g.mutation(nb)}
+		case 2:
+			st.Mut = []Mutation{{Kind: "cutrand", Byte: g.r.Intn(1 << 30)}}
+		}
+		conc := g.r.PickInt(1, 1, 2, 4)
+		ops := g.readOps(bs, n)
+		var grp []int
+		var phase []string
+		for i, pol := range []string{"full", "one", "small", "rand", "bound"} {
+			if pol == "one" && n > 40000 {
+				continue
+			}
+			src := Source{Stored: st, Frag: Frag{Policy: pol, Seed: g.r.Uint64()}, EOFWithData: i%2 == 1}
+			if g.r.Chance(1, 2) {
+				src.Faults = []RFault{{Call: g.r.Range(1, 10), Kind: "zero"}, {Call: g.r.Range(11, 30), Kind: "zero"}}
+			}
+			p.Readers = append(p.Readers, RScript{Conc: conc, Srcs: []Source{src}, Ops: ops})
+			grp = append(grp, len(p.Readers)-1)
+			phase = append(phase, fmt.Sprintf("R%d", len(p.Readers)-1))
+		}
+		p.SameR = [][]int{grp}
+		for _, name := range phase {
+			p.Phases = append(p.Phases, []string{name})
+		}
+	}
+}
+
+// ---------------------------------------------------------------------------
+// C06: truncation at every byte.
+
+func (g *gen) cuts(p *Plan) {
+	p.Kind = "cuts"
+	small := g.r.Chance(3, 4)
+	st, bs, n, _ := g.storedFrame(p, 3, small)
+	if st.Base == "lz4w" && g.r.Chance(1, 8) {
+		st.Opts.Legacy = true
+		st.Opts.BSum = false
+	} else if st.Base == "refenc" && g.r.Chance(1, 8) {
+		st.Enc.Legacy = true
+	}
+	if g.r.Chance(1, 10) {
+		st.Prefix = []SkipPlan{{Nibble: g.r.Intn(16), Len: g.r.Range(0, 40)}}
+	}
+	r := RScript{Conc: 1, Srcs: []Source{{Stored: st, Frag: Frag{Policy: "full"}}}}
+	r.Ops = []ROp{{Op: "drain", Sizes: g.readSizes(bs, n)}}
+	p.Readers = []RScript{r}
+	p.Phases = [][]string{{"R0"}}
+	p.Procs = 4
+	p.Enum = &Enum{Kind: "cuts", Target: "R0", Seed: g.r.Uint64()}
+}
+
+// ---------------------------------------------------------------------------
+// C05: corruption.
+
+var fieldKinds = []string{"magic", "flg", "bd", "csize", "hc", "bsize", "bdata", "bsum", "endmark", "csum"}
+
+func (g *gen) mutation(nb int) Mutation {
+	if nb < 1 {
+		nb = 1
+	}
+	switch g.r.Pick(45, 20, 8, 8, 8, 6, 5) {
+	case 0:
+		return Mutation{Kind: "flip", Field: fieldKinds[g.r.Pick(3, 6, 6, 6, 8, 18, 20, 14, 9, 10)], Block: g.r.Intn(nb), Byte: g.r.Intn(1 << 20), Bit: g.r.Intn(8)}
+	case 1:
+		return Mutation{Kind: "set", Field: fieldKinds[g.r.Pick(3, 6, 6, 6, 8, 18, 20, 14, 9, 10)], Block: g.r.Intn(nb), Byte: g.r.Intn(1 << 20), Val: g.r.PickInt(0, 1, 0x7f, 0x80, 0xff, g.r.Intn(256))}
+	case 2:
+		return Mutation{Kind: "delblock", Block: g.r.Intn(nb)}
+	case 3:
+		return Mutation{Kind: "dupblock", Block: g.r.Intn(nb)}
+	case 4:
+		return Mutation{Kind: "swapblocks", Block: g.r.Intn(nb), B2: g.r.Intn(nb)}
+	case 5:
+		d := make([]byte, g.r.Range(1, 12))
+		for i := range d {
+			d[i] = byte(g.r.Uint64())
+		}
+		return Mutation{Kind: "insert", Field: g.r.PickStr("bsize", "bdata", "endmark", "csum"), Block: g.r.Intn(nb), Data: d}
+	}
+	return Mutation{Kind: "delete", Field: g.r.PickStr("bsize", "bdata", "bsum", "endmark"), Block: g.r.Intn(nb), Byte: g.r.Intn(1 << 20), Val: g.r.Range(1, 9)}
+}
+
+func (g *gen) corrupt(p *Plan) {
+	p.Kind = "corrupt"
+	st, bs, n, nb := g.storedFrame(p, 6, g.r.Chance(1, 5))
+	nm := g.r.Pick(0, 70, 20, 10)
+	for i := 0; i < nm; i++ {
+		st.Mut = append(st.Mut, g.mutation(nb))
+	}
+	if g.r.Chance(1, 12) {
+		// splice: the head of this frame, the tail of another one
+		t, _, _, _ := g.storedFrame(p, 4, false)
+		st.Tail2 = &t
+		st.Mut = append(st.Mut, Mutation{Kind: "splice", Block: g.r.Intn(nb), B2: g.r.Intn(4)})
+	}
+	conc := g.r.PickInt(1, 1, 2, 4)
+	src := Source{Stored: st, Frag: g.fragFor(n), EOFWithData: g.r.Chance(1, 4)}
+	if src.Frag.Policy == "one" {
+		src.Frag.Policy = "rand"
+	}
+	r := RScript{Conc: conc, HYield: g.r.Pick(85, 10, 5), Srcs: []Source{src}}
+	r.Ops = g.readOps(bs, n)
+	p.Readers = []RScript{r}
+	p.Phases = [][]string{{"R0"}}
+	p.Procs = 4
+}
+
+// ---------------------------------------------------------------------------
+// C07: hostile input.
+
+func (g *gen) hostile(p *Plan) {
+	p.Kind = "hostile"
+	conc := g.r.PickInt(1, 1, 2, 4)
+	var st Stored
+	n := 0
+	bs := 64 << 10
+	switch g.r.Pick(8, 35, 42, 15) {
+	case 0: // random bytes
+		n = g.r.PickInt(0, 1, 3, 4, 5, 7, 8, 11, 64, g.r.Range(0, 5000))
+		p.Inputs = []Input{{Class: "random", Len: n, Seed: g.r.Uint64()}}
+		st = Stored{Base: "raw", In: 0}
+	case 1: // heavily mutated valid frames
+		var nb int
+		st, bs, n, nb = g.storedFrame(p, 4, g.r.Chance(1, 3))
+		for i, k := 0, g.r.Range(1, 50); i < k; i++ {
+			st.Mut = append(st.Mut, g.mutation(nb))
+		}
+	case 2: // grammar-built hostile streams
+		p.Inputs = []Input{{Class: "mixed", Len: 200000, Seed: g.r.Uint64()}}
+		st = Stored{Base: "hostile", In: 0, Hostile: g.hostileGrammar()}
+	default: // every first word around the reserved values, then a valid frame
+		word := uint32(0x184D2A00 + g.r.Intn(256))
+		switch g.r.Intn(8) {
+		case 0:
+			word = g.r.PickU32(0x184D2203, 0x184D2205, 0x184C2101, 0x184C2103, 0x184D2A4F, 0x184D2A60, 0x184D2B50, 0x194D2A50, 0x184D2204^0x80000000, 0)
+		}
+		p.Inputs = []Input{g.input(g.r.Range(0, 3000))}
+		o := g.wopts(1)
+		o.BS = 4
+		skipLen := g.r.PickInt(0, 1, 7, 100, 4096)
+		items := []HItem{{Kind: "word", Val: word}, {Kind: "word", Val: uint32(skipLen)}, {Kind: "fill", Len: skipLen, Seed: g.r.Uint64()}}
+		st = Stored{Base: "hostile", In: 0, Hostile: &Hostile{Items: items}, Tail2: &Stored{Base: "lz4w", Opts: &o, In: 0}}
+	}
+	src := Source{Stored: st, Frag: g.fragFor(1 << 20), EOFWithData: g.r.Chance(1, 4)}
+	r := RScript{Conc: conc, HYield: g.r.Pick(85, 10, 5), Srcs: []Source{src}}
+	r.Ops = g.readOps(bs, n)
+	p.Readers = []RScript{r}
+	p.Phases = [][]string{{"R0"}}
+	p.Procs = 4
+}
+
+func (r *Rand) PickU32(vals ...uint32) uint32 { return vals[r.Intn(len(vals))] }
+
+func (g *gen) hostileGrammar() *Hostile {
+	h := &Hostile{}
+	add := func(it HItem) { h.Items = append(h.Items, it) }
+	// optional skippable frames with hostile lengths
+	for g.r.Chance(1, 4) {
+		l := g.r.PickU32(0, 1, 100, 0xFFFFFFFF, 0x7FFFFFFF, 0x80000000, 1<<20)
+		add(HItem{Kind: "word", Val: 0x184D2A50 + uint32(g.r.Intn(16))})
+		add(HItem{Kind: "word", Val: l})
+		if l <= 1<<20 && g.r.Chance(3, 4) {
+			add(HItem{Kind: "fill", Len: int(l), Seed: g.r.Uint64()})
+		} else {
+			add(HItem{Kind: "fill", Len: g.r.Range(0, 300), Seed: g.r.Uint64()})
+			return h
+		}
+	}
+	switch g.r.Pick(70, 20, 10) {
+	case 1: // legacy
+		add(HItem{Kind: "word", Val: 0x184C2102})
+		for i, k := 0, g.r.Range(0, 6); i < k; i++ {
+			switch g.r.Intn(5) {
+			case 0:
+				add(HItem{Kind: "word", Val: 0x184C2102, Rep: g.r.PickInt(1, 2, 1000, 100000, 1<<20)})
+			case 1:
+				add(HItem{Kind: "word", Val: g.r.PickU32(0, 1, 0x7FFFFFFF, 0x80000000, 0xFFFFFFFF, 8<<20, 8<<20+1, 0x184D2204)})
+			default:
+				n := g.r.Range(1, 300)
+				add(HItem{Kind: "word", Val: uint32(n)})
+				add(HItem{Kind: "fill", Len: n - g.r.Pick(90, 10), Seed: g.r.Uint64()})
+			}
+		}
+		return h
+	case 2: // bare magic repetitions and garbage
+		add(HItem{Kind: "word", Val: g.r.PickU32(0x184D2204, 0x184C2102, 0x184C2102), Rep: g.r.PickInt(1, 2, 3, 1000, 1<<20)})
+		add(HItem{Kind: "fill", Len: g.r.Range(0, 100), Seed: g.r.Uint64()})
+		return h
+	}
+	// modern frame header with hostile fields
+	flg := uint32(0x40)
+	if g.r.Chance(4, 5) {
+		flg |= 0x20
+	}
+	if g.r.Bool() {
+		flg |= 0x10
+	}
+	if g.r.Bool() {
+		flg |= 0x04
+	}
+	it := HItem{Kind: "header"}
+	if g.r.Chance(1, 3) {
+		flg |= 0x08
+		it.Has = true
+		it.Size = []uint64{0, 1, 1 << 32, 1<<63 - 1, 1<<64 - 1, 65536}[g.r.Intn(6)]
+	}
+	if g.r.Chance(1, 10) {
+		flg ^= uint32(1 << uint(g.r.Intn(8))) // version / reserved / dict bits
+	}
+	bd := uint32(g.r.PickInt(4, 4, 4, 5, 6, 7, 0, 1, 2, 3)) << 4
+	if g.r.Chance(1, 15) {
+		bd |= uint32(g.r.Intn(16))
+	}
+	it.Val = flg | bd<<8
+	if g.r.Chance(1, 12) {
+		it.Val2 = uint32(g.r.Range(1, 255))
+	}
+	add(it)
+	for i, k := 0, g.r.Range(0, 8); i < k; i++ {
+		switch g.r.Pick(30, 25, 15, 15, 15) {
+		case 0: // a proper raw block
+			add(HItem{Kind: "rawblock", Len: g.r.PickInt(0, 1, 100, 65536, 65537, g.r.Range(0, 70000))})
+		case 1: // hostile size words
+			add(HItem{Kind: "word", Val: g.r.PickU32(0x7FFFFFFF, 0xFFFFFFFF, 0x80000000, 0x80000001, 65537, 0x80010001, 4<<20+1, 1<<30, 0x184C2102, 0x184D2204)})
+			add(HItem{Kind: "fill", Len: g.r.Range(0, 200), Seed: g.r.Uint64()})
+		case 2: // long runs of zero-length raw blocks
+			add(HItem{Kind: "word", Val: 0x80000000, Rep: g.r.PickInt(1, 2, 100, 3000)})
+		case 3: // a compressed block of garbage
+			n := g.r.Range(1, 400)
+			add(HItem{Kind: "word", Val: uint32(n)})
+			add(HItem{Kind: "fill", Len: n, Seed: g.r.Uint64()})
+			if flg&0x10 != 0 {
+				add(HItem{Kind: "fill", Len: 4, Seed: g.r.Uint64()})
+			}
+		default: // tiny valid compressed blocks: token 0 (empty), short literals
+			b := [][]byte{{0x00}, {0x10, 'a'}, {0x11, 'a', 1, 0}, {0x1f, 'a', 1, 0, 255, 255, 10}}[g.r.Intn(4)]
+			add(HItem{Kind: "word", Val: uint32(len(b))})
+			add(HItem{Kind: "bytes", Data: b})
+		}
+	}
+	if g.r.Chance(2, 3) {
+		add(HItem{Kind: "word", Val: 0})
+		if flg&0x04 != 0 {
+			add(HItem{Kind: "fill", Len: 4, Seed: g.r.Uint64()})
+		}
+	}
+	return h
+}
+
+// ---------------------------------------------------------------------------
+// C16: dependent blocks.
+
+func (g *gen) dependent(p *Plan) {
+	p.Kind = "dependent"
+	e := &EncPlan{BS: g.blockIdx(), Dependent: true, BSum: g.r.Chance(1, 3), CSum: g.r.Chance(2, 3), HasSize: g.r.Chance(1, 4)}
+	if e.BS == 7 && g.r.Chance(2, 3) {
+		e.BS = 4
+	}
+	bs := bsBytes(e.BS)
+	n := g.r.PickInt(65536, 70000, 131072, 200000, g.r.Range(1, 300000), g.r.Range(65536, 1<<20))
+	if e.BS == 7 && g.r.Chance(1, 3) {
+		n = g.r.Range(4<<20, 8<<20)
+	}
+	in := g.input(n)
+	in.Class = []string{"repeat", "mixed", "text"}[g.r.Pick(50, 30, 20)]
+	p.Inputs = []Input{in}
+	e.Blocks = g.encBlocks(n, bs)
+	src := Source{Stored: Stored{Base: "refenc", Enc: e, In: 0}, Frag: g.fragFor(n), EOFWithData: g.r.Chance(1, 4)}
+	r := RScript{Conc: g.r.PickInt(1, 2, 4, 0), Srcs: []Source{src}}
+	if g.r.Chance(1, 4) {
+		r.Ops = []ROp{{Op: "writeto"}}
+	} else {
+		// buffer sizes below, at and above the block size so both decode paths alternate
+		var sizes []int
+		for i, k := 0, g.r.Range(1, 5); i < k; i++ {
+			sizes = append(sizes, g.r.PickInt(1000, 4096, bs-1, bs, bs+1, 2*bs, 65536, 65535, 100000, g.r.Range(100, 2*bs)))
+		}
+		r.Ops = []ROp{{Op: "drain", Sizes: sizes}}
+	}
+	r.Ops = append(r.Ops, ROp{Op: "read", N: 16})
+	p.Readers = []RScript{r}
+	p.Phases = [][]string{{"R0"}}
+	p.Procs = 4
+}
+
+// ---------------------------------------------------------------------------
+// C18: the compressing reader.
+
+func (g *gen) creader(p *Plan) {
+	p.Kind = "cr"
+	o := WOpts{BS: g.blockIdx(), BSum: g.r.Chance(1, 3), CSum: g.r.Chance(2, 3), Conc: 1}
+	if o.BS > 5 && g.r.Chance(2, 3) {
+		o.BS = 4
+	}
+	if g.r.Chance(1, 4) {
+		o.Size = -1
+	}
+	switch g.r.Pick(65, 25, 10) {
+	case 1:
+		o.Level = g.r.Range(1, 3)
+	case 2:
+		o.Level = g.r.Range(4, 9)
+	}
+	if g.r.Chance(1, 12) {
+		o = WOpts{Default: true}
+	}
+	bs := BlockBytesOf(o)
+	maxBlocks := 4
+	if bs > 256<<10 {
+		maxBlocks = 2
+	}
+	n := g.length(bs, maxBlocks)
+	if o.Level >= 4 && n > 200000 {
+		n = g.r.Range(0, 200000)
+	}
+	p.Inputs = []Input{g.input(n)}
+	c := CScript{Opts: o, In: 0, Frag: g.fragFor(n), EOFWithData: g.r.Chance(1, 3), Adaptive: g.r.Chance(1, 2)}
+	if g.r.Chance(1, 6) {
+		c.Faults = []RFault{{Call: g.r.Range(1, 8), Kind: g.r.PickStr("err0", "errn")}}
+	} else if g.r.Chance(1, 8) {
+		c.Faults = []RFault{{Call: g.r.Range(1, 8), Kind: "zero"}}
+	}
+	k := g.r.Range(1, 5)
+	small := n <= 70000
+	for i := 0; i < k; i++ {
+		s := g.r.PickInt(7, 8, 9, 100, 1000, 4096, bs/2, bs, bs+100, 2*bs, n+1000, g.r.Range(1, bs))
+		if small {
+			s = g.r.PickInt(0, 1, 2, 3, 4, 5, 6, 7, 8, 9, 15, 16, 100, 1000, 4096, n/2+1, n+1000, g.r.Range(1, 300))
+		}
+		c.Sizes = append(c.Sizes, s)
+	}
+	// never only zero-length buffers
+	c.Sizes = append(c.Sizes, g.r.PickInt(1, 7, 64, 4096))
+	p.CRs = []CScript{c}
+	p.Phases = [][]string{{"C0"}}
+}
+
+// BlockBytesOf mirrors the block size selection of options.
+func BlockBytesOf(o WOpts) int {
+	if o.Default || o.BS == 0 || o.BS == 7 {
+		return 4 << 20
+	}
+	return bsBytes(o.BS)
+}
